@@ -43,6 +43,11 @@ func registerSignatures() {
 	// RangeError for an invalid array length has an empty message (pinned by array_test.go).
 	engine.RegisterSignature("c19-empty-message-array-length", func(m *engine.Mismatch) bool {
 		a := m.Aux
+		if a != nil && (a["site"] == "new Array(len)" || a["site"] == "Array(len)" || a["site"] == "array length store" || a["site"] == "array length defineProperty") {
+			// lattice family: every invalid length of the lattice
+			return a["want"] == "RangeError" && strings.HasSuffix(m.Key, "#script") &&
+				strings.HasPrefix(m.Expected, "throws|RangeError|true|RangeError|true") && m.Observed == "throws|RangeError|true|RangeError|false"
+		}
 		if a == nil || (a["group"] != "arraylength" && a["group"] != "arraylength-store") {
 			return false
 		}
@@ -119,5 +124,26 @@ func registerSignatures() {
 		u := a["uncaught"]
 		return u != "" && u != "no error" && !strings.HasPrefix(u, "Go panic") && !strings.HasPrefix(u, "(") &&
 			m.Observed == "escaped the catch clause: TypeError: invalid value (struct): missing runtime: "+a["uncaught"]+" (otto.Error)"
+	})
+	// lattice family: site-specific signatures (Aux: site, expr, want)
+	engine.RegisterSignature("c19-number-methods-generic", func(m *engine.Mismatch) bool {
+		a := m.Aux
+		if a == nil || a["want"] != "TypeError" {
+			return false
+		}
+		switch a["site"] {
+		case "Number.prototype.toFixed receiver", "Number.prototype.toExponential receiver", "Number.prototype.toPrecision receiver":
+		default:
+			return false
+		}
+		if strings.HasSuffix(m.Key, "#script") {
+			return m.Observed == "returns"
+		}
+		return strings.HasSuffix(m.Key, "#text") && m.Observed == "returns"
+	})
+	engine.RegisterSignature("c19-getownpropertynames-primitive", func(m *engine.Mismatch) bool {
+		a := m.Aux
+		return a != nil && a["site"] == "Object.getOwnPropertyNames argument" && a["want"] == "TypeError" && m.Observed == "returns" &&
+			(strings.HasSuffix(m.Key, "#script") || strings.HasSuffix(m.Key, "#text"))
 	})
 }
